@@ -401,6 +401,24 @@ bool TypeChecker::typesAreCompatible(
         bool treatVoidAsAny,
         bool ignoreQualifier)
 {
+    // A typedef name stands for its synonymized type on either side, and with
+    // qualifiers ignored, they are on either side.
+    if (ty1->kind() == TypeKind::TypedefName) {
+        auto resolvedTy = ty1->asTypedefNameType()->resolvedSynonymizedType();
+        if (!resolvedTy)
+            return false;
+        return typesAreCompatible(resolvedTy, ty2, treatVoidAsAny, ignoreQualifier);
+    }
+    if (ignoreQualifier
+            && ty2->kind() == TypeKind::Qualified
+            && ty1->kind() != TypeKind::Qualified) {
+        return typesAreCompatible(
+                    ty1,
+                    ty2->asQualifiedType()->unqualifiedType(),
+                    treatVoidAsAny,
+                    ignoreQualifier);
+    }
+
     switch (ty1->kind()) {
         case TypeKind::Array:
             switch (ty2->kind()) {
